@@ -6,6 +6,7 @@ from .. import env, attach, gen, flow, solve
 from ..canon import Snap
 
 PROPERTY = 'C15'
+gen.OFFGRID = 0.12      # some asset windows start or end strictly between two grid points
 CASES = {'quick': 396, 'thorough': 3168}
 BUDGET_S = {'quick': 300, 'thorough': 2400}
 RULE = ('case = a portfolio (transports, multi-commodity, CHP/Plant with fuel rows, coarse-frequency and periodic assets, storages, order books - '
